@@ -745,6 +745,8 @@ def run(ck):
         c13_2c(ck, prog)
         c13_3(ck, prog)
         c13_8(ck, prog)
+        from rules.C09 import c09_10
+        c09_10(ck, prog, 'C13.11')
         r = ck.rule('C13.9', 'a function that stores a requested maximum (loader / transport / connection `..._set_max_...`) only ever lowers the request: each replacement of the parameter by a constant K lies behind `param > C` with C >= K (clamping from above); a request of 0 is stored as 0', 'DOM',
                     breaks='a configured message-size or descriptor limit is silently replaced by a larger one for some requested values', floor=2)
         lib.limit_setters_only_lower(prog, r, {'dbus/dbus-message.c', 'dbus/dbus-transport.c', 'dbus/dbus-connection.c'})
